@@ -81,7 +81,8 @@ def hensel(ctx, fname, kind):
   mods = [nm for nm in info["modified"] if isinstance(head.env.get(nm), Poly) and head.env[nm].as_atom() is not None and head.env[nm].as_atom().kind == "sym"]
   tn = [nm for nm in mods if any(isinstance(bp[2].env.get(nm), Poly) and bp[2].env[nm].as_atom() is not None and bp[2].env[nm].as_atom().kind == "min"
                                  and k in bp[2].env[nm].as_atom().args for bp in info["body_paths"])]
-  an = [nm for nm in mods if nm not in tn]
+  # the iterate refers to its own previous value; temporaries recomputed in every pass do not
+  an = [nm for nm in mods if nm not in tn and any(isinstance(bp[2].env.get(nm), Poly) and head.env[nm].as_atom() in bp[2].env[nm].all_atoms() for bp in info["body_paths"])]
   if len(tn) != 1 or len(an) != 1:
     ctx.violation(R, f.where, "Newton loop", "expected one iterate and one exponent min(k, .) carried by the loop (carried: %s)" % mods)
     return
